@@ -19,7 +19,8 @@ EXPLANATION = (
     "Equality with the textbook recurrence, SPD-ness and stationarity are numeric and NOT decided. "
     "(R07.9) initiate / predict / update / distance have no data-dependent shortcut: every linear-algebra step runs exactly once on every path."
     ' (R07.10) the measurement a box / point contributes is the same vector of plain coordinates at initiate, update and distance (contradiction rule between the three sites), in the order in which the state -> box conversion reads the state back, with the optional angle defaulting to the constant 0 and all velocities starting at 0; R07.6 also requires that the reported box is the conversion of the updated state with only the confidence written afterwards.'
-    " (R07.11) predict, project, update and distance of the box and the point filter, read as matrix expressions in a non-commutative normal form with transpose and inverse (P, S symmetric; solve_lower_triangular(S, B) = S^-1 B), equal the textbook recurrences m' = F m, P' = F P F^T + Q, (H m, H P H^T + R), m' = m + K (z - H m), P' = P - K S K^T with K = P H^T S^-1, d = (z - H m)^T S^-1 (z - H m).")
+    " (R07.11) predict, project, update and distance of the box and the point filter, read as matrix expressions in a non-commutative normal form with transpose and inverse (P, S symmetric; solve_lower_triangular(S, B) = S^-1 B), equal the textbook recurrences m' = F m, P' = F P F^T + Q, (H m, H P H^T + R), m' = m + K (z - H m), P' = P - K S K^T with K = P H^T S^-1, d = (z - H m)^T S^-1 (z - H m)."
+    ' (R07.12) initiate / predict / project / update / distance never rewrite single components of a vector or matrix in place (premise of R07.11: the expression builder does not see element writes), and the gating distance is computed by a filter built from the position / velocity weight of the track it is measured for.')
 NOT_DECIDED = ["f32 rounding of the recurrences (their real-valued matrix formulas ARE decided: R07.11)",
                "symmetric positive-definiteness of the covariance as a numeric statement (R07.11 shows P' = P - K S K^T "
                "and P' = F P F^T + Q, which preserve it in exact arithmetic)", "stationary-object prediction as a numeric statement",
